@@ -52,7 +52,8 @@ def creation_script(rng, allow_est):
     if rng.random() < 0.3:
         steps.append(["idle"])
     if rng.random() < 0.55:
-        st = ["rgu", rng.randrange(4), int(rng.random() < 0.8), int(rng.random() < 0.8)]
+        st = ["rgu", rng.randrange(4) if rng.random() < 0.85 else rng.choice([4, 5, 6, 6]),
+              int(rng.random() < 0.8), int(rng.random() < 0.8)]
         if rng.random() < 0.25:
             # the updater is handed a graph that already lost some nodes (legal: remove_node is public API);
             # entries are reduced modulo the number of nodes
@@ -106,7 +107,7 @@ class World:
             elif st[0] == "idle":
                 o = IdleTimeReward(d)
             elif st[0] == "rgu":
-                g = getattr(graphs, session.GRAPH_BUILDERS[st[1]])(self.instance)
+                g = build_graph(self.instance, st[1], seed=len(steps))
                 self.pre_removed = []
                 for r in (st[4] if len(st) > 4 else []):
                     nid = r % len(g.nodes)
@@ -124,6 +125,22 @@ class World:
     def state(self):
         return session.deep_state(self)
 
+    def try_rejected(self, variant):
+        """an observer construction that the library rejects (unsupported feature type -> ValidationError): it must
+        leave no trace, in this episode or after the next reset"""
+        from job_shop_lib.exceptions import ValidationError
+        from job_shop_lib.dispatching.feature_observers import (FeatureType, PositionInJobObserver,
+                                                                RemainingOperationsObserver)
+        cls, fts = [(PositionInJobObserver, [FeatureType.JOBS]),
+                    (PositionInJobObserver, [FeatureType.OPERATIONS, FeatureType.MACHINES]),
+                    (RemainingOperationsObserver, [FeatureType.OPERATIONS]),
+                    (RemainingOperationsObserver, [FeatureType.JOBS, FeatureType.OPERATIONS])][variant % 4]
+        try:
+            cls(self.dispatcher, feature_types=fts)
+        except ValidationError:
+            return
+        raise RuntimeError("the constructor accepted an unsupported feature type")
+
     def do(self, j, p, m):
         d = self.dispatcher
         if self.env is not None:
@@ -140,11 +157,17 @@ class World:
         return None
 
 
-def run_history(world, hist):
+def run_history(world, hist, reject=None):
+    """reject = [position, variant]: a rejected observer construction attempted before that dispatch (or at the
+    end of the history when position == len(hist))"""
     outs = []
-    for j, p, m in hist:
+    for i, (j, p, m) in enumerate(hist):
+        if reject and reject[0] == i:
+            world.try_rejected(reject[1])
         r = world.do(j, p, m)
         outs.append([r, world.state()])
+    if reject and reject[0] >= len(hist):
+        world.try_rejected(reject[1])
     return outs
 
 
@@ -159,6 +182,28 @@ def tie_plan(steps):
     return rgu_at, len(steps)
 
 
+def updater_tied(steps):
+    """index of the updater step the updater session (command 1202) models: the first one, when its graph comes
+    from one of the four built-in builders (custom graphs have no model: twin oracle only)"""
+    rgu_at, _ = tie_plan(steps)
+    return rgu_at if rgu_at is not None and steps[rgu_at][1] < 4 else None
+
+
+def build_graph(instance, code, seed=0):
+    """0-3: the built-in builders (session.GRAPH_BUILDERS); 4, 5: agent-task family assembled from the public
+    building blocks with shuffled machine / job nodes (c17.build_custom); 6: operation nodes with the conjunctive
+    edges only (a job with a single operation is an isolated node)"""
+    from job_shop_lib import graphs
+
+    if code < 4:
+        return getattr(graphs, session.GRAPH_BUILDERS[code])(instance)
+    if code in (4, 5):
+        return c17.build_custom(instance, code == 5, seed)
+    g = graphs.JobShopGraph(instance)
+    graphs.add_conjunctive_edges(g)
+    return g
+
+
 class TieView:
     """What the model sessions show, read off world A with the encoders of harness/c11.py and c17.py."""
 
@@ -170,7 +215,8 @@ class TieView:
         self.classes = c11._classes()   # pylint: disable=protected-access
         self.fts = [FeatureType.OPERATIONS, FeatureType.MACHINES, FeatureType.JOBS]
         self.objs = []
-        rgu_at, upto = tie_plan(steps)
+        _, upto = tie_plan(steps)
+        rgu_at = updater_tied(steps)
         self.updater = world.objs[rgu_at] if rgu_at is not None else None
         self.refresh()
         # feature-class subscribers created by the covered steps (in subscription = creation order)
@@ -240,9 +286,14 @@ def sparse_run(case):
     """second, sparsely observed pair of worlds (non-env cases): A' = creation script, every episode of h1 dispatched
     WITHOUT looking, one look at the end of the episode, reset; B' = fresh twin; both then run `sparse_states`"""
     a = World(case["spec"], case["filters"], case["steps"], None)
-    for h in case["h1"]:
-        for j, p, m in h:
+    for ep, h in enumerate(case["h1"]):
+        rej = case.get("reject")
+        for i, (j, p, m) in enumerate(h):
+            if rej and rej[0] == ep and rej[1] == i:
+                a.try_rejected(rej[2])
             a.do(j, p, m)
+        if rej and rej[0] == ep and rej[1] >= len(h):
+            a.try_rejected(rej[2])
         a.state()
         a.reset()
     b = World(case["spec"], case["filters"], case["steps"], None)
@@ -311,6 +362,10 @@ class C12(Check):
             hs = [gen_history(rng, spec, 0.6) for _ in range(n_ep)]
             h2 = gen_history(rng, spec, 0.7)
             cases.append({"spec": spec, "filters": fs, "steps": steps, "env": env, "h1": hs, "h2": h2})
+            if env is None and rng.random() < 0.15:
+                ep = rng.randrange(n_ep)
+                cases[-1]["reject"] = [ep, rng.randint(0, len(hs[ep])), rng.randrange(4)]
+                self.note("rejected_observer_construction_before_the_reset")
             self.note("cases")
             self.note("episodes_before", n_ep)
             for st in steps:
@@ -340,8 +395,9 @@ class C12(Check):
             raise
         view = TieView(a, case["steps"]) if case["env"] is None else None
         snaps = [view.snap()] if view else []          # after the creation script
-        for h in case["h1"]:
-            run_history(a, h)
+        for ep, h in enumerate(case["h1"]):
+            rej = case.get("reject")
+            run_history(a, h, rej[1:] if rej and rej[0] == ep else None)
             ra = a.reset()
             if view:
                 snaps.append(view.snap())               # after every reset
@@ -387,7 +443,7 @@ class C12(Check):
             return []
         tie = obs["tie"]
         steps = case["steps"]
-        rgu_at, _ = tie_plan(steps)
+        rgu_at = updater_tied(steps)
         evs, _ = self.session_events(case)
         reqs = []
         if tie["nfeat"] > 0:
@@ -404,7 +460,10 @@ class C12(Check):
         fails = []
         tie = obs["tie"]
         steps = case["steps"]
-        rgu_at, upto = tie_plan(steps)
+        _, upto = tie_plan(steps)
+        rgu_at = updater_tied(steps)
+        if rgu_at is None and tie_plan(steps)[0] is not None:
+            self.note("updater_on_custom_graph_oracle_only")
         evs, marks = self.session_events(case)
         snaps = tie["snaps"]
         outs = list(outs)
@@ -510,6 +569,8 @@ class C12(Check):
         return sum(len(h) for h in case["h1"]) >= 2 and len(case["h2"]) >= 1
 
     def shrink_candidates(self, case):
+        if case.get("reject"):
+            yield {k: v for k, v in case.items() if k != "reject"}
         if len(case["h1"]) > 1:
             yield dict(case, h1=case["h1"][:1])
         if case["h2"]:
